@@ -40,6 +40,11 @@ def run(ctx):
         n += number_format_rule(ctx, "C04.F", fv, "oligo::mmap", root, SF("norm"), expect_norm_only=True)
         row_rule(ctx, fv, "oligo::mmap", root)
     ctx.floor("C04.F", 5)
+    # the counted windows come from the k-mer iterator and the columns from the rank map
+    from . import c01, c03
+    c01.run(dep(ctx, "C04", "C01"))
+    c03.maps_rules(dep(ctx, "C04", "C03"), "C03")
+    c03.canonical_min_rule(dep(ctx, "C04", "C03"), "C03.M")
 
 
 def row_rule(ctx, fv, who, root=None, rule="C04.F"):
